@@ -150,3 +150,61 @@ func VPH_tagStructured() {
 	vp_Assert(string(t.ReferentType) == kind, "referent type is the header's type")
 	vp_Reach("end")
 }
+
+// VPH_oddHeaders (C16): objects git accepts whose header block contains a line
+// without a space (a bare keyword such as "x-reviewed") - before the other
+// headers, between them, or as the last header line. The parsers may refuse
+// such an object, but when they return a result it holds exactly the
+// tree/parent (object/type) lines of the header block: the message, which
+// imitates header lines, never contributes.
+func VPH_oddHeaders() {
+	kw := vpFreeText("keyword", 2)
+	for i := 0; i < len(kw); i++ {
+		vp_Assume(kw[i] != ' ')
+	}
+	where := vp_Choice("where", 2) // 0: between the headers, 1: last header line
+	// the message imitates header lines; duplicates of tree/object/type would make a parser that
+	// wanders into the message fail loudly, so there is also a variant with parent lines only
+	msg := "\nfirst line\nparent " + vpHexID(0x55) + "\nlast line\n"
+	if vp_Choice("message", 2) == 1 {
+		msg = "\nfirst line\nparent " + vpHexID(0x55) + "\ntree " + vpHexID(0x56) + "\nobject " + vpHexID(0x57) + "\ntype blob\nlast line\n"
+	}
+	if vp_Choice("object", 2) == 0 {
+		treeHex, parentHex := vpHexID(0x11), vpHexID(0x30)
+		s := "tree " + treeHex + "\nparent " + parentHex + "\n"
+		if where == 0 {
+			s += kw + "\nauthor A <a@b> 1 +0000\ncommitter C <c@d> 2 +0000\n"
+		} else {
+			s += "author A <a@b> 1 +0000\ncommitter C <c@d> 2 +0000\n" + kw + "\n"
+		}
+		var c *Commit
+		var err error
+		panicked := vp_Catch(func() { c, err = ParseCommit(OID{}, []byte(s+msg)) })
+		vp_Assert(!panicked, "ParseCommit does not crash")
+		if panicked || err != nil {
+			vp_Reach("refused")
+			return
+		}
+		vp_Assert(c.Tree == vpOIDOf(treeHex), "tree is the header's tree")
+		vp_Assert(len(c.Parents) == 1 && c.Parents[0] == vpOIDOf(parentHex), "exactly the header block's parent lines; nothing from the message")
+		vp_Reach("commit")
+		return
+	}
+	objHex := vpHexID(0x21)
+	s := "object " + objHex + "\ntype commit\n"
+	if where == 0 {
+		s += kw + "\ntag v\ntagger T <t@u> 3 +0000\n"
+	} else {
+		s += "tag v\ntagger T <t@u> 3 +0000\n" + kw + "\n"
+	}
+	var t *Tag
+	var err error
+	panicked := vp_Catch(func() { t, err = ParseTag(OID{}, []byte(s+msg)) })
+	vp_Assert(!panicked, "ParseTag does not crash")
+	if panicked || err != nil {
+		vp_Reach("refused")
+		return
+	}
+	vp_Assert(t.Referent == vpOIDOf(objHex) && string(t.ReferentType) == "commit", "exactly the header block's object/type lines; nothing from the message")
+	vp_Reach("tag")
+}
